@@ -38,6 +38,7 @@ def run_one(pid, tier, repo, replay=None):
         chk.prog = ctx.prog
         chk.units['files'] = ctx.prog.files()
         mod.run(chk, ctx)
+        second_reading(chk, ctx, mod, repo, tier)
         if replay:
             return replay_one(chk, replay)
         if tier == 'thorough':
@@ -62,6 +63,43 @@ def run_one(pid, tier, repo, replay=None):
         print('ANALYSIS-ERROR property=%s internal error in the analyser\n%s'
               % (pid, tb))
         return 2
+
+
+def second_reading(chk, ctx, mod, repo, tier):
+    """`assert` statements are compiled away under python -O /
+    PYTHONOPTIMIZE: a guard, a bound or a side effect that lives in an
+    assert is not there in that mode.  When the package has any, the rules
+    are run a second time on the program without them and whatever differs
+    from the first reading is added to the verdict."""
+    import ast
+    from . import interp as I
+    from .context import Context
+    if chk.pid in ('C07', 'C09'):
+        # which exception types can escape also depends on -b / -bb:
+        # str() of a bytes value raises BytesWarning there
+        I.BYTES_WARNINGS = True
+        try:
+            sr = report.SecondReading(chk, '[python -bb: str() of bytes '
+                                      'raises BytesWarning]')
+            mod.run(sr, Context(repo, tier))
+            chk.units['bytes_warning_reading_differences'] = \
+                sr.extra_obligations
+        finally:
+            I.BYTES_WARNINGS = False
+    nas = sum(isinstance(n, ast.Assert)
+              for mi in ctx.prog.modules.values() for n in ast.walk(mi.tree))
+    chk.units['assert_statements'] = nas
+    if not nas:
+        return
+    I.ASSERTS_REMOVED = True
+    try:
+        sr = report.SecondReading(chk, '[python -O: asserts removed]')
+        mod.run(sr, Context(repo, tier))
+        chk.units['second_reading_differences'] = sr.extra_obligations
+    finally:
+        I.ASSERTS_REMOVED = False
+    chk.assume('assert statements are analysed both as executed and as '
+               'removed (python -O)')
 
 
 def replay_one(chk, path):
